@@ -43,6 +43,7 @@ var scratch string
 
 func main() {
 	run := vr.New("C12", "model_checking")
+	defer run.Recover()
 	var err error
 	base := ""
 	if fi, e := os.Stat("/dev/shm"); e == nil && fi.IsDir() {
